@@ -194,6 +194,11 @@ def run(check):
         case = {"id": "c10-%05d" % idx, "files": g["program"].files(), "scripts": {}, "runs": [], "dump_dag": True}
         idx += 1
         items.append((case, g, None))
+        if g["shape"].startswith("tagged") or idx % 4 == 0:
+            # the workflow object converted from the text is prepared a second time: the second graph is the one compared
+            case = {"id": "c10-%05d" % idx, "files": g["program"].files(), "scripts": {}, "runs": [], "dump_dag": True, "prepare_twice": True}
+            idx += 1
+            items.append((case, dict(g, shape=g["shape"] + "+prepared-twice"), None))
     cor_n = 0
     for gi, g in enumerate(gs):
         if check.quick() and gi % 3:
